@@ -426,6 +426,9 @@ func (r *RefCount[T]) resolve(ctx context.Context, waitCh, doneCh chan struct{},
 	if waitCh != nil {
 		select {
 		case <-ctx.Done():
+			// canceled before starting: still wait for the previous resolver to exit
+			// before closing doneCh, the next resolver must not overlap with it.
+			<-waitCh
 			return
 		case <-waitCh:
 		}
